@@ -17,7 +17,11 @@ the last module's exports); the driver renders the modules, analyses them in dep
 (each sees the earlier ones through their emitted stubs), records every module's inferred
 declarations and what the reader sees under the three configurations; TLC computes the type the
 upstream analyses give to each read (PathType: class lookup, bases, POSITIONAL binding of type
-parameters) and judges TypeEq(seen, that), agreement of the configurations, and errors.
+parameters) and judges TypeEq(seen, that), agreement of the configurations, and errors (also the
+import / pyi errors of every upstream module that itself reads earlier modules' stubs).
+
+The corpus is fixed: 16 slices (VERIF_SEED mod 16 selects one at the quick tier, thorough runs all);
+the exhaustive world cores do not depend on the seed.
 """
 import argparse
 import json
